@@ -138,6 +138,7 @@ C_SameKeySame(ev) ==
      /\ S!PhraseKey(SpecOutcome(ev).m, ev.pc, Len(ev.s)) = S!PhraseKey(SpecOutcome(ev).m, T[ev.bprev].pc, Len(T[ev.bprev].s)))
   => ev.out = T[ev.bprev].out
 \* C10: a setting produced by crypt_gensalt* hashes successfully and is kept literally in the hash
+C18_CanHash(ev) == (ObservedSuccess(ev) /\ ev.snull = 0) => S!Checksalt(Enabled, ev.s) # S!SALT_INVALID
 C_Literal(ev) == ev.gs = 1 => (ObservedSuccess(ev) /\ S!StartsWith(ev.out, ev.s))
 \* C14: the handle after crypt_ra
 MustGrow(ev) == ev.predata = 0 \/ ev.presize < SIZEOF
@@ -179,6 +180,7 @@ JudgeHash(ev) ==
               \cup (IF C_Distinct(ev) THEN {} ELSE {V("C03", "Distinct")})
               \cup (IF C_Handle(ev) THEN {} ELSE {V("C14", "Handle")})
               \cup (IF C_Literal(ev) THEN {} ELSE {V("C10", "Literal")})
+              \cup (IF C18_CanHash(ev) THEN {} ELSE {V("C18", "CanHash")})
               \cup (IF AnyFault(ev) /\ ~C_Balanced(ev) THEN {V("C15", "Balanced")} ELSE {})
   IN [viol |-> coreV \cup conc,
       div |-> IF AnyFault(ev) THEN {}
@@ -232,6 +234,20 @@ Step ==
         /\ UNCHANGED <<st, div, cnt>>
      ELSE IF ev.e = "checksalt" THEN
         /\ viol' = viol \cup JudgeChecksalt(ev)
+        /\ UNCHANGED <<st, div, cnt>>
+     ELSE IF ev.e = "csclass" THEN
+        \* C18: every byte string of this class got the single answer the specification gives
+        /\ viol' = viol \cup (IF ev.rs = <<S!Checksalt(Enabled, ev.cs)>> THEN {} ELSE {V("C18", "ChecksaltClass")})
+        /\ UNCHANGED <<st, div, cnt>>
+     ELSE IF ev.e = "csnull" THEN
+        /\ viol' = viol \cup (IF ev.r = S!SALT_INVALID THEN {} ELSE {V("C18", "ChecksaltNull")})
+        /\ UNCHANGED <<st, div, cnt>>
+     ELSE IF ev.e = "preferred" THEN
+        \* C18: crypt_preferred_method names the strongest enabled default-capable method (or NULL)
+        /\ viol' = viol \cup (IF (IF S!DefaultMethod(Enabled) = "none" THEN ev.rnull = 1
+                                  ELSE ev.rnull = 0 /\ ev.r = S!PrefixOf[S!DefaultMethod(Enabled)]
+                                       /\ S!Checksalt(Enabled, ev.r) = S!SALT_OK)
+                               THEN {} ELSE {V("C18", "Preferred")})
         /\ UNCHANGED <<st, div, cnt>>
      ELSE IF ev.e = "Reset" THEN
         /\ st' = [x \in {} |-> FreshObj]
